@@ -5,8 +5,8 @@ package main
 import (
 	"context"
 	"fmt"
-	"os"
 	"net"
+	"os"
 	"os/exec"
 	"path/filepath"
 	"strings"
@@ -423,6 +423,11 @@ func init() {
 					o.emit(fmt.Sprintf("!C19.conc launch=%s automtls=%s n=8 rep=%d", launch, b01(auto), rep), impl, pred)
 				}
 			}
+		}
+		// the first Start fails by TIMEOUT after it launched; nothing later launches again
+		{
+			impl, pred := runTimeoutThenRetry()
+			o.emit("!C19.timeout-then-retry launch=runner ops=S,S,C,P,K,S", impl, pred)
 		}
 		// socket path not in canonical form (relative to Cmd.Dir; through a symbolic link): one address from every Start
 		// and from every ReattachConfig in between
